@@ -58,7 +58,7 @@ impl Parse for FieldName {
         if let Ok(lit) = fork.parse::<syn::LitInt>() {
             // Successfully parsed as number, consume from real input
             let _: syn::LitInt = input.parse()?;
-            let index = lit.base10_parse()?;
+            let index = checked_index(lit.base10_parse()?, lit.span())?;
             Ok(FieldName::Index(index))
         } else {
             // Try parsing as identifier
@@ -72,6 +72,16 @@ impl Parse for FieldName {
                     )
                 })
         }
+    }
+}
+
+/// Tuple indices are emitted through `syn::Index`, which holds a `u32` and asserts
+/// `index < u32::MAX`; report anything larger as a syntax error instead.
+fn checked_index(index: usize, span: proc_macro2::Span) -> syn::Result<usize> {
+    if index < u32::MAX as usize {
+        Ok(index)
+    } else {
+        Err(syn::Error::new(span, "tuple index is too large"))
     }
 }
 
@@ -295,7 +305,7 @@ impl FieldOperation {
         } else if input.peek(syn::LitInt) {
             // It's a tuple index like .0 or .1
             let lit_int: syn::LitInt = input.parse()?;
-            let index: usize = lit_int.base10_parse()?;
+            let index = checked_index(lit_int.base10_parse()?, lit_int.span())?;
             ops.push(FieldOperation::UnnamedField {
                 index,
                 span: dot_span,
@@ -318,6 +328,8 @@ impl FieldOperation {
             let second_idx = second
                 .parse::<usize>()
                 .map_err(|_| syn::Error::new(dot_span, "Invalid numeric index in field access"))?;
+            let first_idx = checked_index(first_idx, dot_span)?;
+            let second_idx = checked_index(second_idx, dot_span)?;
 
             // Push two sequential UnnamedField operations
             ops.push(FieldOperation::UnnamedField {
